@@ -231,6 +231,9 @@ func run(c *runner.Ctx, idx int) {
 			c.Seen("extra_box", e)
 		}
 	}
+	for _, t := range cs.Traits {
+		c.Seen("input_trait", t)
+	}
 	x := &ctx{c: c, cs: cs, cfg: cfg, pre: cfg.Scheme + "/" + fam(cs.Codec)}
 	tools := &cencgen.Tools{BinDir: c.Env.BinDir + "/tools", Scratch: c.Env.Scratch}
 	haveTools := tools.Available()
@@ -585,6 +588,22 @@ func (x *ctx) compare(baseInit, baseMedia, decInit, decMedia []byte, separate, d
 		x.compareBoxes("init", baseInit, decInit)
 	}
 	damaged, _ = x.compareBoxes("file", baseMedia, decMedia)
+	// observation, not a verdict: protection signalling that survives in a decrypted fragment. The statement
+	// lists what must be restored and kept; it does not say that senc/saiz/saio must be gone.
+	if nodes, err := boxwalk.Walk(decMedia); err == nil {
+		for _, n := range nodes {
+			if n.Type != "moof" {
+				continue
+			}
+			for _, t := range n.Children {
+				for _, ch := range t.Children {
+					if ch.Type == "senc" || ch.Type == "saiz" || ch.Type == "saio" {
+						x.c.Seen("protection_box_left_in_decrypted_fragment", ch.Type)
+					}
+				}
+			}
+		}
+	}
 	suffix := ""
 	if damaged {
 		suffix = "/after-moof-box-difference"
